@@ -996,7 +996,9 @@ fn do_command_substitution_for_dot(sh: &mut Shell, tokens: &mut types::Tokens) {
     for (sep, token) in tokens.iter() {
         let new_token: String;
         if sep == "`" {
-            new_token = run_command_substitution(sh, token);
+            // the output is data: a `$(...)` in it is not for the pass
+            // that follows
+            new_token = protect_value(&run_command_substitution(sh, token));
         } else if sep == "\"" || sep.is_empty() {
             let re;
             if let Ok(x) = Regex::new(r"(?s)^([^`]*)`([^`]+)`(.*)$") {
@@ -1016,6 +1018,15 @@ fn do_command_substitution_for_dot(sh: &mut Shell, tokens: &mut types::Tokens) {
                 let _head = cap[1].to_string();
                 let _cmd = cap[2].to_string();
                 let _tail = cap[3].to_string();
+                if let Some((start, end)) = find_dollar_substitution(&_rest) {
+                    if start < _head.len() {
+                        // backquotes written inside a `$(...)` belong to
+                        // the inner command
+                        _item.push_str(&_rest[..end]);
+                        _rest = _rest[end..].to_string();
+                        continue;
+                    }
+                }
                 _item.push_str(&_head);
                 if sep.is_empty()
                     && libs::re::re_contains(token, r"^[a-zA-Z_][a-zA-Z0-9_]*=")
@@ -1031,7 +1042,7 @@ fn do_command_substitution_for_dot(sh: &mut Shell, tokens: &mut types::Tokens) {
                     continue;
                 }
                 let _output = run_command_substitution(sh, &_cmd);
-                _item.push_str(&_output);
+                _item.push_str(&protect_value(&_output));
                 _rest = _tail;
             }
             _item.push_str(&_rest);
